@@ -90,10 +90,13 @@ class World:
         self.sched = k3x.CtlScheduler(self)
         self.raises = set(sc["raises"])
         for p in sc["progs"]:
-            for op in p:
-                if op[0] in ("note", "enq") and op[1] == "completed":
+            for op in gated(p):
+                # on_completed carries no payload: the spy reports it under the identity of the completion that
+                # can actually reach the observer -- the FIRST terminal of the (gated) program; later ones are
+                # dropped by the Observer base class (is_stopped)
+                if op[0] in ("note", "enq") and op[1] == "completed" and self.done_ident is None:
                     self.done_ident = op[2]
-                if op[0] == "scompleted":
+                if op[0] == "scompleted" and self.done_ident is None:
                     self.done_ident = op[1]
         mode = sc["mode"]
         spy = Spy(self)
